@@ -97,13 +97,15 @@ func (s *scriptedRM) BranchCommit(_ context.Context, r rm.BranchResource) (branc
 func (s *scriptedRM) BranchRollback(_ context.Context, r rm.BranchResource) (branch.BranchStatus, error) {
 	return s.call("BranchRollback", r)
 }
-func (s *scriptedRM) BranchRegister(context.Context, rm.BranchRegisterParam) (int64, error) { return 0, nil }
-func (s *scriptedRM) BranchReport(context.Context, rm.BranchReportParam) error             { return nil }
-func (s *scriptedRM) LockQuery(context.Context, rm.LockQueryParam) (bool, error)           { return true, nil }
-func (s *scriptedRM) RegisterResource(rm.Resource) error                                    { return nil }
-func (s *scriptedRM) UnregisterResource(rm.Resource) error                                  { return nil }
-func (s *scriptedRM) GetCachedResources() *sync.Map                                         { return &sync.Map{} }
-func (s *scriptedRM) GetBranchType() branch.BranchType                                      { return s.bt }
+func (s *scriptedRM) BranchRegister(context.Context, rm.BranchRegisterParam) (int64, error) {
+	return 0, nil
+}
+func (s *scriptedRM) BranchReport(context.Context, rm.BranchReportParam) error   { return nil }
+func (s *scriptedRM) LockQuery(context.Context, rm.LockQueryParam) (bool, error) { return true, nil }
+func (s *scriptedRM) RegisterResource(rm.Resource) error                         { return nil }
+func (s *scriptedRM) UnregisterResource(rm.Resource) error                       { return nil }
+func (s *scriptedRM) GetCachedResources() *sync.Map                              { return &sync.Map{} }
+func (s *scriptedRM) GetBranchType() branch.BranchType                           { return s.bt }
 
 func registeredTypes() []int {
 	var out []int
@@ -215,9 +217,11 @@ func p2Case(r *runner, rng *hutil.Rng, caseNo, n int, malformed bool) *p2case {
 	close(start)
 	done := make(chan struct{})
 	go func() { wg.Wait(); close(done) }()
+	limit, stopLimit := patient(30 * time.Second)
+	defer stopLimit()
 	select {
 	case <-done:
-	case <-time.After(30 * time.Second):
+	case <-limit:
 		cs.Oracle = append(cs.Oracle, "request processing did not finish within 30 s")
 	}
 	for i := range cs.Reqs {
